@@ -19,7 +19,7 @@ TXT = {
  "C13": ("TLC enumerates all header-class lists up to length 4 (5) with RFC 9113 section 8 verdicts and the content-length automaton; each instantiated with bytes through a literal HPACK encoder and replayed on the real client/server; Trace_Http decides", "4 C13"),
  "C14": ("TLC exhaustive on the implementation model of the connection control machinery H2Conn (MC_Conn, both roles: every SETTINGS acknowledged exactly once in order with its values applied when the ACK is buffered, every PING answered once in order, one local SETTINGS outstanding, single-slot asserts unreachable, no lost wake-up) bound to the code by replaying TLC-generated behaviours and comparing every control frame, API result and snapshot per step; TLA+ FIFO acknowledgement ledgers + epoch rule evaluated by TLC on real traces incl. SETTINGS/PING bursts while the endpoint is blocked mid-frame", "4 C14, 11.9"),
  "C15": ("TLC exhaustive on H2Conn (MC_Conn: GOAWAY ids monotone and never below a surfaced stream, cut-off after GOAWAY sent / received, two-phase graceful shutdown completes also with stray / user PING ACKs, result reports the peer's code, idle client close) bound to the code by step-by-step replay; TLA+ GOAWAY / shutdown rules evaluated by TLC on real traces (scripted GOAWAY at any moment, graceful / abrupt shutdown at any moment, delayed shutdown-ping acks)", "4 C15, 11.9"),
- "C20": ("handle operations (send_data, reset, drops, reserve / capacity, poll_data, release, send_request, drop of the last SendRequest) executed INSIDE the read / write / flush callbacks of the connection task's transport - the lock-release points of Connection::poll - on parked handles, deterministic and seeded; the recorded traces are validated by TLC against ALL TLA+ contract monitors (every rule of C01-C19), a watchdog turns a lock held across a transport call into C20.deadlock; the frame-parked-in-the-codec window is explored exhaustively by TLC in MC_Send", "4 C20, 11.8"),
+ "C20": ("handle operations (send_data, reset, drops, reserve / capacity, poll_data, release, send_request, drop of the last SendRequest) executed INSIDE the read / write / flush callbacks of the connection task's transport - the lock-release points of Connection::poll - on parked handles, deterministic and seeded; the recorded traces are validated by TLC against ALL TLA+ contract monitors (every rule of C01-C19), a watchdog turns a lock held across a transport call into C20.deadlock; the frame-parked-in-the-codec window is explored exhaustively by TLC in MC_Send; plus REAL parallel executions (family threadsA: connections and every request half on their own OS threads, handle call + log entry atomic under the transport mutex so that the trace is a valid linearization, stall watchdog) validated by the same monitors", "4 C20, 11.8"),
  "C16": ("TLC exhaustive on H2Send + H2Api capacity rules (census invariant in EVERY reachable state: assigned never exceeds credit); model bound to code by step-by-step snapshot conformance; rules incl. pool/starvation evaluated by TLC on real traces with competing streams", "4 C16"),
  "C17": ("TLA+ reset ledger (one RST_STREAM, right code, none after clean close, no data after reset, others undisturbed) on real traces with resets at every position incl. partly written frames; peer error surfacing rules", "4 C17"),
  "C18": ("closed-form bounds over the endpoint's configuration (H2Bounds.tla: records not held by the application, buffered received events, queued frames, quota counters, CONTINUATION frames per block, owed acknowledgements) evaluated by TLC on every statistics snapshot of real executions under generated floods (dense snapshots after every poll of the connection task), small random limits, non-accepting applications and blocked writes; the store bound is derived and shown tight by TLC on the implementation model H2Streams (MC_Streams InvC18), which is bound to the code by snapshot conformance", "4 C18, 11.7"),
@@ -37,7 +37,7 @@ for pid in sorted(PLAN):
         "replay_cmd_template": "bin/check %s --replay {path}" % pid,
         "engine": "tlc+h2sim",
         "level_claimed": {"category": p["level"], "text": text, "design_ref": "DESIGN.md section " + ref},
-        "level_note": ("systematic lock-point interleavings only (one OS thread, operations injected at the transport callbacks); real multi-threaded executions and memory-model effects of the user-ping atomics are NOT covered by this check; " if pid == "C20" else "") + "trusted base: TLC 1.8 + CommunityModules Json reader, the harness transport/parser/HPACK reference, rustc; exhaustive only within the stated small constants of the MC slices; real-code executions are sampled (seeded) or TLC-generated, not all executions",
+        "level_note": ("lock-point interleavings are systematic (seeded, reproducible); real multi-threaded executions are sampled OS schedules (inputs seeded, schedules not reproducible); " if pid == "C20" else "") + "trusted base: TLC 1.8 + CommunityModules Json reader, the harness transport/parser/HPACK reference, rustc; exhaustive only within the stated small constants of the MC slices; real-code executions are sampled (seeded) or TLC-generated, not all executions",
         "technique": "explicit TLA+ specification checked with TLC; conformance by trace validation of recorded executions of the real library against the TLA+ contract and by replay of TLC-generated behaviours with state comparison",
     })
 claimed = set(PLAN)
